@@ -27,6 +27,7 @@ type Config struct {
 	Ticks   int
 	Timeout int
 	MaxPath int
+	Prop    string // property being checked: assertions labelled for other properties only are skipped
 }
 
 func parseDirectives(fn *ssa.Function, cfg *Config) {
@@ -126,6 +127,7 @@ func newEngine(prog *ssa.Program, cfg Config, params map[string]int, seed int) *
 	e.fpUF = cfg.FP == "uf"
 	e.loopBound = cfg.Loop
 	e.maxPaths = cfg.MaxPath
+	e.prop = cfg.Prop
 	e.maxInstr = 5_000_000
 	e.solver = NewSolver(cfg.Solver, e.tb, cfg.Timeout, seed)
 	return e
@@ -152,6 +154,7 @@ func main() {
 	jobs := fs.Int("j", 8, "parallel workers")
 	out := fs.String("out", "", "JSON output file")
 	witness := fs.String("witness", "", "witness file (replay)")
+	propFlag := fs.String("prop", "", "property id: assertions whose message is labelled for other properties only (\"C03/C08: ...\") are skipped")
 	seed := fs.Int("seed", 0, "solver seed")
 	verbose := fs.Bool("v", false, "verbose")
 	maxtime := fs.Int("maxtime", 0, "stop exploring after this many seconds (results marked truncated)")
@@ -237,7 +240,7 @@ func main() {
 		os.Exit(2)
 	}
 	mkcfg := func(f *ssa.Function) Config {
-		cfg := Config{Mode: "bv", FP: "exact", Solver: "z3", Loop: 40, Timeout: *timeout, MaxPath: 200000}
+		cfg := Config{Mode: "bv", FP: "exact", Solver: "z3", Loop: 40, Timeout: *timeout, MaxPath: 200000, Prop: *propFlag}
 		parseDirectives(f, &cfg)
 		if *mode != "" {
 			cfg.Mode = *mode
@@ -279,6 +282,9 @@ func main() {
 			os.Exit(2)
 		}
 		cfg := mkcfg(target)
+		if cfg.Prop == "" {
+			cfg.Prop = w.Property
+		}
 		e := newEngine(prog, cfg, w.Params, *seed)
 		e.verbose = *verbose
 		r := e.RunHarness(target, &w)
